@@ -236,8 +236,6 @@ LamExtra(lay) == (IF lay.lbody = "compr" THEN 3 ELSE 0) + (IF lay.lpar = "none" 
 ValsOf(lay, T, g) ==
     [s \in DOMAIN Samples |->
         Apply(Params(lay), Samples[s], g, IF IsDef(lay) THEN BodySum(T) ELSE LamExtra(lay))]
-\* ... of the function as written by the user
-ExpVals(lay, g) == ValsOf(lay, Text(lay), g)
 
 -----------------------------------------------------------------------------
 (* part 3: the pipeline of the code over abstract lines                    *)
@@ -325,11 +323,11 @@ FormulaFromDefText(T, name, doc) ==
        ELSE [ok |-> TRUE, err |-> "", islam |-> FALSE, name |-> name, lines |-> r.lines, doc |-> doc]
 
 \* Capture: what new_cells / the formula setter / defcells make of a layout
-CaptureFn(lay, name) ==
+CaptureFn(lay, T0, name) ==
     IF IsDef(lay)
-    THEN LET T == IF lay.form = "funcobj" THEN GetBlock(Text(lay)) ELSE Text(lay)
+    THEN LET T == IF lay.form = "funcobj" THEN GetBlock(T0) ELSE T0
          IN FormulaFromDefText(T, name, [code |-> lay.doc, exact |-> FALSE, cont |-> 0])
-    ELSE LET r == PipelineLam(lay, Text(lay))
+    ELSE LET r == PipelineLam(lay, T0)
          IN IF r.err # "" THEN Rejected(r.err)
             ELSE [ok |-> TRUE, err |-> "", islam |-> TRUE, name |-> name, lines |-> r.lines, doc |-> NoDoc]
 
@@ -398,13 +396,15 @@ ProjectRejected(err) ==
      lines |-> <<>>, nl |-> FALSE, compiles |-> FALSE, defines |-> FALSE, params |-> <<>>,
      vals |-> <<>>, savals |-> <<>>, doc |-> NoDoc, hash |-> 0]
 
-IdsOf(lay, kinds) == {Text(lay)[i].id : i \in {j \in DOMAIN Text(lay) : Text(lay)[j].k \in kinds}}
-IsDocId(lay, id) == id > NEWID \/ id \in IdsOf(lay, {"doc"})
-NonDocLines(lay, lines) == SelectSeq(lines, LAMBDA p : ~IsDocId(lay, p[1]))
+IdsOf(T, kinds) == {T[i].id : i \in {j \in DOMAIN T : T[j].k \in kinds}}
+\* lines that do not belong to a docstring (docIds: ids of the docstring lines of the layout)
+NonDocLines(docIds, lines) == SelectSeq(lines, LAMBDA p : p[1] <= NEWID /\ p[1] \notin docIds)
 
-P_NoDecoratorLeft(lay, o) ==
-    /\ o.decos = 0
-    /\ \A i \in DOMAIN o.lines : o.lines[i][1] \notin IdsOf(lay, DecoLineKinds)
+\* T0 is always the text of the layout, Text(lay)
+P_NoDecoratorLeft(T0, o) ==
+    LET decoIds == IdsOf(T0, DecoLineKinds)
+    IN /\ o.decos = 0
+       /\ \A i \in DOMAIN o.lines : o.lines[i][1] \notin decoIds
 
 P_NameIsCellsName(lay, cname, o) ==
     /\ o.cname = cname
@@ -412,27 +412,28 @@ P_NameIsCellsName(lay, cname, o) ==
 
 \* from the def line on, formula.source consists of exactly the lines of the layout, in
 \* order, each indented relative to the def as it was (docstring lines apart: DocInert)
-P_BodyUntouched(lay, o) ==
+P_BodyUntouched(lay, T0, o) ==
     IF IsDef(lay)
-    THEN LET T   == Text(lay)
-             h   == HdrIdx(T)
-             exp == [i \in 1..(Len(T) - h + 1) |->
-                        IF IsBlank(T[h + i - 1]) THEN <<0, 0>>
-                        ELSE <<T[h + i - 1].id, T[h + i - 1].col - T[h].col>>]
-             at  == {i \in DOMAIN o.lines : o.lines[i][1] = T[h].id}
+    THEN LET h   == HdrIdx(T0)
+             docIds == IdsOf(T0, {"doc"})
+             exp == [i \in 1..(Len(T0) - h + 1) |->
+                        IF IsBlank(T0[h + i - 1]) THEN <<0, 0>>
+                        ELSE <<T0[h + i - 1].id, T0[h + i - 1].col - T0[h].col>>]
+             at  == {i \in DOMAIN o.lines : o.lines[i][1] = T0[h].id}
          IN /\ Cardinality(at) = 1
             /\ LET oh  == CHOOSE i \in at : TRUE
                    got == [i \in 1..(Len(o.lines) - oh + 1) |->
                               IF o.lines[oh + i - 1][1] = 0 THEN <<0, 0>>
                               ELSE <<o.lines[oh + i - 1][1], o.lines[oh + i - 1][2] - o.lines[oh][2]>>]
-               IN NonDocLines(lay, got) = NonDocLines(lay, exp)
+               IN NonDocLines(docIds, got) = NonDocLines(docIds, exp)
             /\ \A i \in DOMAIN o.lines : o.lines[i][1] # -1
-    ELSE LET X == SelectSeq(Text(lay), LAMBDA l : l.k \in LamKinds)
+    ELSE LET X == SelectSeq(T0, LAMBDA l : l.k \in LamKinds)
          IN /\ [i \in DOMAIN o.lines |-> o.lines[i][1]] = [i \in DOMAIN X |-> X[i].id]
             /\ Len(o.lines) > 0 /\ o.lines[1][2] = 0
 
-P_SelfContained(lay, g, o) == o.compiles /\ o.defines /\ o.savals = ExpVals(lay, g)
-P_BehavesLikeFunction(lay, g, o) == o.vals = ExpVals(lay, g)
+\* ev: the values of the function as the user wrote it (ExpVals)
+P_SelfContained(ev, o) == o.compiles /\ o.defines /\ o.savals = ev
+P_BehavesLikeFunction(ev, o) == o.vals = ev
 P_ParamsKept(lay, o) == o.params = ParamNames(lay)
 
 P_Idempotent(p, o) ==
@@ -446,8 +447,9 @@ P_RenameInert(lay, new, p, o) ==
 
 \* only the docstring changed, and cells.doc returns what was given (with insert_indents the
 \* following lines are indented like the body: documented, cells.py:550-598)
-P_DocInert(lay, k, code, ii, p, o) ==
-    /\ NonDocLines(lay, o.lines) = NonDocLines(lay, p.lines)
+P_DocInert(T0, k, code, ii, p, o) ==
+    LET docIds == IdsOf(T0, {"doc"}) IN
+    /\ NonDocLines(docIds, o.lines) = NonDocLines(docIds, p.lines)
     /\ o.cname = p.cname /\ o.defname = p.defname /\ o.nl = p.nl /\ o.decos = p.decos
     /\ o.vals = p.vals /\ o.params = p.params /\ o.islam = p.islam
     /\ o.doc.code = code
@@ -464,8 +466,8 @@ P_Unchanged(p, o) ==
 \* --- the situations of the known findings (each a predicate of the case, not of the
 \*     property): the normal label is raised for anything else
 KF_LamOuter(lay)   == ~IsDef(lay) /\ lay.ml = "outer"
-KF_Col0(lay)       == IsDef(lay) /\ HasKind(Text(lay), "c0cmt") /\ Ind(lay.ws) > 0
-KF_DedentStr(lay)  == IsDef(lay) /\ HasKind(Text(lay), "strA") /\ Ind(lay.ws) > 0
+KF_Col0(lay, T0)      == IsDef(lay) /\ HasKind(T0, "c0cmt") /\ Ind(lay.ws) > 0
+KF_DedentStr(lay, T0) == IsDef(lay) /\ HasKind(T0, "strA") /\ Ind(lay.ws) > 0
 KF_OneLineDoc(cur) == cur.ok /\ ~cur.islam /\ IsOne(cur.lines) /\ DocCodeOf(cur.lines) = 0
 KF_DocQuote(k)     == k \in {14, 15, 16}
 
@@ -488,37 +490,41 @@ KFNames == {KF1, KF2, KF3, KF4, KF5}
 Lab(cond, name) == IF cond THEN {} ELSE {name}
 
 \* about the formula the cells has now
-StateLabels(lay, cn, g, o) ==
-    LET dv == ValsOf(lay, Dedent(Text(lay)), g)      \* the values if only dedent interfered
-    IN Lab(P_NoDecoratorLeft(lay, o), "C20.NoDecoratorLeft")
-       \cup Lab(P_NameIsCellsName(lay, cn, o), "C20.NameIsCellsName")
-       \cup Lab(P_BodyUntouched(lay, o), "C20.BodyUntouched")
-       \cup Lab(P_ParamsKept(lay, o), "C20.ParamsKept")
-       \cup (IF P_SelfContained(lay, g, o) THEN {}
-             ELSE IF KF_DedentStr(lay) /\ o.compiles /\ o.defines /\ o.savals = dv THEN {KF3}
-             ELSE {"C20.SelfContained"})
-       \cup (IF P_BehavesLikeFunction(lay, g, o) THEN {}
-             ELSE IF KF_DedentStr(lay) /\ o.vals = dv THEN {KF3}
-             ELSE {"C20.BehavesLikeFunction"})
+\*   ev: values of the function as written; dv: the values if only dedent interfered
+StateLabels(lay, T0, cn, ev, dv, o) ==
+    Lab(P_NoDecoratorLeft(T0, o), "C20.NoDecoratorLeft")
+    \cup Lab(P_NameIsCellsName(lay, cn, o), "C20.NameIsCellsName")
+    \cup Lab(P_BodyUntouched(lay, T0, o), "C20.BodyUntouched")
+    \cup Lab(P_ParamsKept(lay, o), "C20.ParamsKept")
+    \cup (IF P_SelfContained(ev, o) THEN {}
+          ELSE IF KF_DedentStr(lay, T0) /\ o.compiles /\ o.defines /\ o.savals = dv THEN {KF3}
+          ELSE {"C20.SelfContained"})
+    \cup (IF P_BehavesLikeFunction(ev, o) THEN {}
+          ELSE IF KF_DedentStr(lay, T0) /\ o.vals = dv THEN {KF3}
+          ELSE {"C20.BehavesLikeFunction"})
 
-OpLabels(lay, op, arg, cn, g, p, o) ==
+OpLabels(lay, T0, op, arg, cn, g, p, o) ==
+    LET ev == ValsOf(lay, T0, g)
+        dv == ValsOf(lay, Dedent(T0), g)
+    IN
     CASE op = "capture" ->
-            IF o.ok THEN StateLabels(lay, cn, g, o)
+            IF o.ok THEN StateLabels(lay, T0, cn, ev, dv, o)
             ELSE IF KF_LamOuter(lay) /\ o.err = "SyntaxError" THEN {KF1}
-            ELSE IF KF_Col0(lay) /\ o.err = "IndentationError" THEN {KF2}
+            ELSE IF KF_Col0(lay, T0) /\ o.err = "IndentationError" THEN {KF2}
             ELSE {"C20.Accepted"}
-      [] op = "setref" -> StateLabels(lay, cn, g, o)
+      [] op = "setref" -> StateLabels(lay, T0, cn, ev, dv, o)
       [] op = "recreate" ->
             IF o.ok THEN Lab(P_Idempotent(p, o), "C20.Idempotent") ELSE {"C20.Idempotent"}
       [] op = "rename" ->
-            IF o.ok THEN Lab(P_RenameInert(lay, cn, p, o), "C20.RenameInert") \cup StateLabels(lay, cn, g, o)
+            IF o.ok THEN Lab(P_RenameInert(lay, cn, p, o), "C20.RenameInert")
+                         \cup StateLabels(lay, T0, cn, ev, dv, o)
             ELSE {"C20.RenameInert"}
       [] op = "setdoc" ->
             IF o.ok
-            THEN (IF P_DocInert(lay, arg.k, arg.k, arg.ii, p, o) THEN {}
-                  ELSE IF arg.k = 15 /\ P_DocInert(lay, arg.k, EscDoc, arg.ii, p, o) THEN {KF5}
+            THEN (IF P_DocInert(T0, arg.k, arg.k, arg.ii, p, o) THEN {}
+                  ELSE IF arg.k = 15 /\ P_DocInert(T0, arg.k, EscDoc, arg.ii, p, o) THEN {KF5}
                   ELSE {"C20.DocInert"})
-                 \cup StateLabels(lay, cn, g, o)
+                 \cup StateLabels(lay, T0, cn, ev, dv, o)
             ELSE Lab(P_Unchanged(p, o), "C20.DocInert")
                  \cup (IF lay.hdr = "one" /\ p.doc.code = 0 /\ o.err = "SyntaxError" THEN {KF4}
                        ELSE IF arg.k \in {14, 16} /\ o.err = "SyntaxError" THEN {KF5}
